@@ -40,6 +40,15 @@ Coverage table (statement clause / quantifier dimension -> where it is explored 
                                      duplicate key, absent input, directory as input).  THIN: stdout is never a terminal here
                                      (probed by hand: widths 0-200 do not crash the deprecation table).
   strict loader accepts              showconfig on every written file, found by search (no flag).
+  settings WITHOUT a v3 counterpart  every documented value form (Migrate.tla DocForms: replace-type entry micro-syntax -- pkg.T=pkg.T,
+                                     aliased, whole package, standard-library / predeclared side without a dot, type-parameter
+                                     selectors, blanks, no '=', degenerate sides, empty entry, empty list, several entries;
+                                     filename / structname / packageprefix templates; case, tags, note, name, output, srcpkg,
+                                     profile values; both polarities of the 18 deleted booleans) x level kind (quick: top, package,
+                                     interface, configs entry; thorough: all 7) as single-key trees, plus whole trees where
+                                     every key carries its n-th documented form, in every shape; random subsets draw them too.
+                                     Quick tier: the plain-valued ones ("doc" family) are sampled by ctx.rng, the parsed ones
+                                     ("docsyn") run fully.  THIN: documented forms of the MAPPED keys beyond the marker styles.
 """
 import json
 import os
@@ -589,7 +598,8 @@ def run(ctx):
     cases += simcases
     # vacuity guards
     fams = {c["fam"] for c in cases}
-    need = {"single", "style", "alias", "null", "pair", "levels", "shape", "layout", "names", "bad", "random"}
+    need = {"single", "style", "alias", "null", "pair", "levels", "shape", "layout", "names", "bad", "random",
+            "docsyn", "doc", "doctree"}
     if not need <= fams:
         raise MachineryError(f"vacuous: case families missing: {need - fams}")
     mapped_seen = {(k, L) for c in cases if c["fam"] == "single" for L, m in c["v2"].items() for k in fn(m)}
@@ -614,6 +624,43 @@ def run(ctx):
         raise MachineryError(f"vacuous: value styles exported: {sorted(styles)}")
     if len(cases) < 500:
         raise MachineryError(f"too few cases ({len(cases)})")
+    # documented value forms of the settings without a v3 counterpart: every shape class of the replace-type entry
+    # syntax must be there at every level kind, and no such key may be expected in the output
+    def one(c):
+        (L, m), = [(L, fn(m)) for L, m in c["v2"].items() if fn(m)]
+        (k, t), = m.items()
+        return k, L, json.loads(t)
+    docsyn = [one(c) for c in cases if c["fam"] == "docsyn"]
+    rt = [(L, v) for k, L, v in docsyn if k == "replace-type"]
+    sides = lambda e: [x.strip() for x in e.split("=", 1)]
+    shape_classes = {
+        "qualified both sides": lambda v: any("=" in e and "[" not in e and all("." in x for x in sides(e)) for e in v),
+        "a side without any dot": lambda v: any("=" in e and "[" not in e and any(x and "." not in x for x in sides(e)) for e in v),
+        "aliased": lambda v: any("=" in e and ":" in e.split("=", 1)[1] for e in v),
+        "type-parameter selector": lambda v: any("[" in e for e in v),
+        "no '='": lambda v: any(e and "=" not in e for e in v),
+        "empty side": lambda v: any("=" in e and "" in sides(e) for e in v),
+        "empty entry": lambda v: "" in v,
+        "empty list": lambda v: v == [],
+        "several entries": lambda v: len(v) >= 3,
+    }
+    kinds = {"top", "pkgA", "ifaceI", "e1"}
+    for name, pred in shape_classes.items():
+        at = {L for L, v in rt if pred(v)}
+        if not kinds <= at:
+            raise MachineryError(f"vacuous: replace-type shape class `{name}` exported only at levels {sorted(at)}")
+    dockeys = {k for k, L, v in docsyn} | {one(c)[0] for c in cases if c["fam"] == "doc"}
+    if len(dockeys) != 45 - 14:
+        raise MachineryError(f"vacuous: documented forms exported for {len(dockeys)} unmapped keys, not 31: {sorted(dockeys)}")
+    if not any(c["fam"] == "doctree" and c["shape"] != "full" for c in cases) or \
+            len({c["vi"] for c in cases if c["fam"] == "doctree" and c["shape"] == "full"}) < 12:
+        raise MachineryError("vacuous: whole trees in documented forms missing")
+    if not thorough:
+        # the plain-valued documented forms (enumerations, booleans, paths) are sampled in the quick tier
+        plain = [i for i, c in enumerate(cases) if c["fam"] == "doc"]
+        keep = set(ctx.rng.sample(plain, min(len(plain), 60)))
+        ctx.cov["doc_cases_sampled"] = f"{len(keep)}/{len(plain)}"
+        cases = [c for i, c in enumerate(cases) if c["fam"] != "doc" or i in keep]
 
     # ---------------------------------------------------------------- 2. replay with the real binary
     run_ = Runner(ctx)
@@ -687,6 +734,7 @@ def run(ctx):
         "values are markers per (key, level) in nine styles (plain, YAML-significant, non-clean path, template with inner quotes, bool/number/date look-alike, NFC+NFD unicode, very long, empty, trailing blank/tab; both polarities of booleans) plus explicit null",
         "the v3 file must appear exactly at the path --outfile denotes relative to the working directory (default .mockery_v3.yml); every other file of the scratch tree, the input included, must be byte-identical",
         "a v3 value that is not one of the 14 mapped settings is accepted when the v2 file contained that value at the same level (e.g. with-expecter), as the property says",
+        "settings without a v3 counterpart take the documented value forms of Migrate.tla DocForms (transcribed from the v2 documentation; replace-type entries by their micro-syntax shape classes), level-independent; their values may, but need not, appear in the v3 file",
         "the loaded `_anchors` map is not compared (the loader merges it key-wise down the hierarchy); the written one is",
         "when a difference shows only with the block-YAML rendering of the input it is reported as drift (yaml.v3 vs PyYAML reading the input), JSON rendering decides",
     ]
